@@ -745,7 +745,7 @@ func (m *c18Mat) execute(spec c18Spec) *c18Exec {
 		case "stale":
 			fb.writeLock(time.Hour)
 		case "live":
-			fb.writeLock(0)
+			fb.writeLock(-time.Hour) // refreshed "in an hour": fresh however slowly this machine gets to the Lock call
 		}
 	}
 	tr := &c18Trace{}
@@ -1421,6 +1421,9 @@ func (g *c18Gen) spec(hist func(string)) c18Spec {
 	}
 	// certificates
 	nIss := 1 + g.r.Intn(2)
+	if g.r.Intn(8) == 0 {
+		nIss = 3
+	}
 	certsIsFile := false
 	if g.r.Intn(12) == 0 {
 		nIss = 0
@@ -1430,9 +1433,13 @@ func (g *c18Gen) spec(hist func(string)) c18Spec {
 			certsIsFile = true
 		}
 	}
-	siteNames := []string{"a.example", "b.example.com", "wildcard_.c.example", "d-e.example", "f.example", "10.0.0.1", "zz.example"}
+	// names in which ".crt" occurs before the extension, or that end in letters of ".crt" (a base name derived by
+	// Replace / TrimRight instead of TrimSuffix goes wrong on them)
+	siteNames := []string{"a.example", "b.example.com", "wildcard_.c.example", "d-e.example", "f.example", "10.0.0.1", "zz.example",
+		"my.crt.example", "router.net"}
 	for i := 0; i < nIss; i++ {
-		issuer := []string{g.pick("le-dir", "le-dir", "acme-v02.api.letsencrypt.org-directory"), "zs-dv90"}[i]
+		issuer := []string{g.pick("le-dir", "le-dir", "acme-v02.api.letsencrypt.org-directory"), "zs-dv90",
+			g.pick("acme-staging-v02.api.letsencrypt.org-directory", "local", "ca.internal-acme-directory")}[i]
 		ns := 1 + g.r.Intn(4)
 		perm := g.r.Perm(len(siteNames))
 		for j := 0; j < ns; j++ {
@@ -2055,7 +2062,7 @@ func runC18(tier string, seed int64, outdir string, replay string) error {
 	g := &c18Gen{r: rand.New(rand.NewSource(seed))}
 	for i := 0; i < n; i++ {
 		sp := g.spec(w.Hist)
-		if len(sp.Runs[0].Faults) == 0 && sp.Runs[0].Cancel < 0 && !sp.Concurrent && g.r.Intn(4) == 0 {
+		if len(sp.Runs[0].Faults) == 0 && sp.Runs[0].Cancel < 0 && !sp.Concurrent && g.r.Intn(3) == 0 {
 			// a fault (or the cancellation) aimed at a call of a chosen kind of the fault-free execution
 			dry := mat.execute(sp)
 			var own []c18Event
